@@ -338,7 +338,7 @@ impl Prop for C09 {
         .unwrap()
     }
     fn rule(&self) -> String {
-        "AL: 1-6 rules with overlapping regexes (shared prefixes, classes, escapes of all kinds, alternation, repetition), 0-3 inclusive/exclusive start states, <S1,S2> prefixes, push/pop/replace targets, regex flags in a %grmtools section, top-level alternations with and without parentheses; 6 inputs each sampled from the rules' ASTs plus unmatchable characters and multi-byte text. Two construction paths: .l text through from_str, and Rule::new + from_rules (duplicate names possible). Ids through set_rule_ids with a map that misses some lexer names and has names the lexer lacks. Oracle: naive lexer (position loop, plain Vec state stack, regex crate built from the AST): same lexemes (id,start,len), same single error position; tiling; exact missing-name sets. Evaluation = one (spec,input,path). Non-trivial: >=2 active rules matched at some position, or a state operation executed, or a multi-byte character preceded a match; distinct by hash(spec,input).".into()
+        "AL: 1-6 rules with overlapping regexes (shared prefixes, classes, escapes of all kinds, alternation, repetition), 0-3 inclusive/exclusive start states, <S1,S2> prefixes, push/pop/replace targets, regex flags in a %grmtools section, top-level alternations with and without parentheses; 6 inputs each sampled from the rules' ASTs plus unmatchable characters and multi-byte text. Two construction paths: .l text through from_str, and Rule::new + from_rules (duplicate names possible). Ids through set_rule_ids and set_rule_ids_spanned with a map that misses some lexer names and has names the lexer lacks. Oracle: naive lexer (position loop, plain Vec state stack, regex crate built from the AST): same lexemes (id,start,len), same single error position; tiling; exact missing-name sets. Evaluation = one (spec,input,path). Non-trivial: >=2 active rules matched at some position, or a state operation executed, or a multi-byte character preceded a match; distinct by hash(spec,input).".into()
     }
     fn assumptions(&self) -> Vec<String> {
         vec![
@@ -431,6 +431,33 @@ impl Prop for C09 {
                     format!("returned ({mfl:?}, {mfp:?}), expected (names without a rule {exp_missing_from_lexer:?}, rule names without an id {exp_missing_from_parser:?})\n{src}"),
                 );
                 return o;
+            }
+        }
+        // the spanned variant reports the same names, each with the span of a rule of that name
+        // (in the .l text the span covers exactly the name)
+        {
+            let mut d = def.clone();
+            let (mfl, mfp) = d.set_rule_ids_spanned(&map);
+            let mfl: BTreeSet<String> = mfl.unwrap_or_default().into_iter().map(|s| s.to_string()).collect();
+            let mfp: BTreeSet<(String, usize, usize)> = mfp.unwrap_or_default().into_iter().map(|(s, sp)| (s.to_string(), sp.start(), sp.end())).collect();
+            let mut exp: BTreeSet<(String, usize, usize)> = BTreeSet::new();
+            for (i, r) in def.iter_rules().enumerate() {
+                if i < al.rules.len() && al.rules[i].name.is_some() && ids[i].is_none() {
+                    let sp = r.name_span();
+                    exp.insert((al.rules[i].name.clone().unwrap(), sp.start(), sp.end()));
+                }
+            }
+            let texts_ok = mfp.iter().all(|(n, st, en)| src.get(*st..*en) == Some(n.as_str()));
+            if mfl != exp_missing_from_lexer || mfp != exp || !texts_ok {
+                o.fail(
+                    "wrong",
+                    "C09/set_rule_ids_spanned/missing-sets",
+                    format!("returned ({mfl:?}, {mfp:?}), expected (names without a rule {exp_missing_from_lexer:?}, rule names without an id with the spans of their rules {exp:?}); span texts match: {texts_ok}\n{src}"),
+                );
+                return o;
+            }
+            if !mfp.is_empty() {
+                o.class("spanned-missing-from-parser");
             }
         }
         // ---- path 2: from_rules
